@@ -157,3 +157,104 @@ Example C10_nonvacuous :
   check [0xE2; 0x82; 0xAC; 0x41; 0xF0; 0x9F]%N = CErr 4 None /\
   check [0xED; 0xA0; 0x80]%N = CErr 0 (Some 1%nat).
 Proof. vm_compute. repeat split. Qed.
+
+(* ------------------------------------------------------------------------------------------------
+   Parser::from_utf8() down to the tokenizer, with C03 DISCHARGED at the level where it is proved
+   (coq/Decode/DecodeParse.v).  For every list of byte chunks: the html tokenizer interpreter on the
+   table regenerated from html5ever/src/tokenizer/mod.rs, fed the character chunks the decoder model
+   delivers for those byte chunks (one chunk per StrTendril handed to the parser: the decoded Str pieces
+   and one [U+FFFD] per replacement; the decoder never hands over an empty piece, so a process() call
+   that decodes to nothing feeds nothing and the chunk list has no empty entry), reaches the SAME final
+   machine - tokens with parse errors and line numbers, configuration, unread input - and the same
+   answer of end() as fed the single chunk from_utf8_lossy(concatenated bytes) (no chunk at all when
+   the input is empty).  [map encs (delivered_chunks evs) = pieces evs] is the bytes <-> code points
+   bridge: the character chunks re-encode to exactly the delivered byte pieces.
+   _partial, what is left: (a) the tree-builder half (the statement stops at the token stream);
+   (b) the interpreter is tied to the Rust tokenizer by differential runs (./check C03), not by proof;
+   (c) the C03 _total theorems start from discard_bom = false; (d) an explicit fuel bound; with
+   script pauses also the driver model's limit of 50 pauses per chunk (SPanic 96). *)
+From HV Require Import TokIR.IR TokIR.Interp TokIR.Chunk TokIR.ChunkExec TokIR.BulkSim Gen.GenHtmlTok.
+From HV Require Inst.InstNoPanic Inst.InstTermination Inst.InstBulk Inst.InstBulkTerm.
+From HV Require Import Decode.DecodeParse.
+
+(* the decoder's side: the chunk list the tokenizer sees, for every byte chunking *)
+Theorem C10_delivered_character_chunks :
+  forall chunks, exists evs, Utf8DecModel.run chunks = Utf8DecModel.Done evs /\
+    all_nonempty (delivered_chunks evs) /\
+    map encs (delivered_chunks evs) = pieces evs /\
+    concat (delivered_chunks evs) = lossy_chars (concat chunks) /\
+    concat (whole_chunks (concat chunks)) = lossy_chars (concat chunks) /\
+    all_nonempty (whole_chunks (concat chunks)) /\
+    (concat chunks = [] -> evs = [] /\ whole_chunks (concat chunks) = []) /\
+    (concat chunks <> [] -> delivered_chunks evs <> [] /\ whole_chunks (concat chunks) <> []).
+Proof. exact delivered_chunks_spec. Qed.
+Print Assumptions C10_delivered_character_chunks.
+
+(* reference semantics, sink without script / encoding pauses: only the fuel bound is left *)
+Theorem C10_tokenizer_from_utf8_partial :
+  forall simd ent c1 sk,
+  InstNoPanic.html_sink_ok sk = true -> InstNoPanic.html_sink_never_pauses sk = true ->
+  forall fuel inj s0 last chunks,
+  InstNoPanic.html_kind_ok s0 = true ->
+  (InstTermination.html_fuel (length (lossy_chars (concat chunks))) <= fuel)%nat -> (4 <= fuel)%nat ->
+  exists evs, Utf8DecModel.run chunks = Utf8DecModel.Done evs /\
+    all_nonempty (delivered_chunks evs) /\ map encs (delivered_chunks evs) = pieces evs /\
+    let d1 := drive_flat html_flavour true html_table simd ent c1 sk fuel inj
+                         (delivered_chunks evs) (fresh_flat s0 last) [] in
+    let d2 := drive_flat html_flavour true html_table simd ent c1 sk fuel inj
+                         (whole_chunks (concat chunks)) (fresh_flat s0 last) [] in
+    fst d1 = fst d2 /\ hd SSuspend (snd d1) = hd SSuspend (snd d2).
+Proof. exact tokenizer_from_utf8_no_pauses. Qed.
+Print Assumptions C10_tokenizer_from_utf8_partial.
+
+(* with script pauses injecting text and encoding-indicator suspensions *)
+Theorem C10_tokenizer_from_utf8_with_pauses_partial :
+  forall simd ent c1 sk,
+  InstNoPanic.html_sink_ok sk = true ->
+  forall fuel inj s0 last chunks,
+  InstNoPanic.html_kind_ok s0 = true ->
+  exists evs, Utf8DecModel.run chunks = Utf8DecModel.Done evs /\
+    all_nonempty (delivered_chunks evs) /\ map encs (delivered_chunks evs) = pieces evs /\
+    let cs1 := delivered_chunks evs in
+    let cs2 := whole_chunks (concat chunks) in
+    (InstTermination.html_fuel (length (lossy_chars (concat chunks)) + length cs1 * (50 * length inj)) <= fuel)%nat ->
+    (InstTermination.html_fuel (length (lossy_chars (concat chunks)) + length cs2 * (50 * length inj)) <= fuel)%nat ->
+    (4 <= fuel)%nat ->
+    let d1 := drive_flat html_flavour true html_table simd ent c1 sk fuel inj cs1 (fresh_flat s0 last) [] in
+    let d2 := drive_flat html_flavour true html_table simd ent c1 sk fuel inj cs2 (fresh_flat s0 last) [] in
+    ~ In (SPanic 96) (snd d1) -> ~ In (SPanic 96) (snd d2) ->
+    fst d1 = fst d2 /\ hd SSuspend (snd d1) = hd SSuspend (snd d2).
+Proof. exact tokenizer_from_utf8_total. Qed.
+Print Assumptions C10_tokenizer_from_utf8_with_pauses_partial.
+
+(* the tokenizer's default mode (chunked queue, bulk reads, exact_errors = false) up to [obs]:
+   parse errors dropped, adjacent character tokens merged; the all_done hypotheses of
+   C03_default_mode_chunking_independent_obs_total remain *)
+Theorem C10_tokenizer_from_utf8_default_mode_obs_partial :
+  forall ent c1 sk fuel inj s0 last chunks,
+  exists evs, Utf8DecModel.run chunks = Utf8DecModel.Done evs /\
+    all_nonempty (delivered_chunks evs) /\ map encs (delivered_chunks evs) = pieces evs /\
+    let cs1 := delivered_chunks evs in
+    let cs2 := whole_chunks (concat chunks) in
+    (InstTermination.html_fuel (length (lossy_chars (concat chunks)) + length cs1 * (50 * length inj)) <= fuel)%nat ->
+    (InstTermination.html_fuel (length (lossy_chars (concat chunks)) + length cs2 * (50 * length inj)) <= fuel)%nat ->
+    (4 <= fuel)%nat ->
+    let f1 := drive_chunked html_flavour false html_table InstBulk.html_simd ent c1 sk fuel inj cs1 (fresh_chunked s0 last) [] in
+    let f2 := drive_chunked html_flavour false html_table InstBulk.html_simd ent c1 sk fuel inj cs2 (fresh_chunked s0 last) [] in
+    all_done (tl (snd f1)) -> all_done (tl (snd f2)) ->
+    obs (mout (fst f1)) = obs (mout (fst f2)) /\ hd SSuspend (snd f1) = hd SSuspend (snd f2).
+Proof. exact tokenizer_from_utf8_default_mode_obs. Qed.
+Print Assumptions C10_tokenizer_from_utf8_default_mode_obs_partial.
+
+(* non-vacuity (a test, by computation): "<p>" E2 82 | AC "</p" | ">" F0 9F - the euro sign cut after two bytes,
+   a truncated four-byte sequence at the end: five character chunks for the tokenizer (the completed
+   sequence comes with the byte spliced after it), against one *)
+Example C10_tokenizer_from_utf8_example :
+  match Utf8DecModel.run [[60; 112; 62; 0xE2; 0x82]; [0xAC; 60; 47; 112]; [62; 0xF0; 0x9F]]%N with
+  | Utf8DecModel.Done evs =>
+      delivered_chunks evs = [[60; 112; 62]; [0x20AC; 60]; [47; 112]; [62]; [0xFFFD]]%N
+  | Utf8DecModel.Panic => False
+  end /\
+  whole_chunks [60; 112; 62; 0xE2; 0x82; 0xAC; 60; 47; 112; 62; 0xF0; 0x9F]%N =
+    [[60; 112; 62; 0x20AC; 60; 47; 112; 62; 0xFFFD]]%N.
+Proof. vm_compute. split; reflexivity. Qed.
